@@ -15,7 +15,7 @@
    or a hang — and reopening must show the before-or-after state with everything earlier intact. *)
 From HC Require FaultReplicaEx.
 From HC Require Import FaultReplica.
-From HC Require SrcOrder OrderTie.
+From HC Require SrcOrder OrderTie OrderTieResult OrderTieStorage.
 From HC Require Import Refine ClearRefine Unified1 CrashClear1 CrashClear2 CrashClear4.
 From HC Require Import Base NMap Codec Crypto FlatTree Storage Bitfield Oplog Merkle Core CoreFacts Fault.
 
@@ -133,7 +133,17 @@ Theorem C10_source_propagates_every_storage_result :
   OrderTie.tied_order SrcOrder.src_unpropagated_verify_and_apply_proof 0%N /\
   OrderTie.tied_order SrcOrder.src_unpropagated_make_read_only 0%N /\
   OrderTie.tied_order SrcOrder.src_unpropagated_flush_bitfield_and_tree_and_oplog 0%N.
-Proof. exact OrderTie.source_propagates_every_storage_result. Qed.
+Proof. exact OrderTieResult.source_propagates_every_storage_result. Qed.
+
+(* ... and the ORDER of the storage-relevant steps (data write, oplog entry = commit point, in-memory commits, checkpoint; bitfield,
+   tree, oplog inside a checkpoint) is the one the model implements — the order the recovery of a failed call relies on. *)
+Theorem C10_source_step_order :
+  OrderTie.tied_order (option_map OrderTie.storage_steps SrcOrder.src_order_append_batch) (OrderTie.storage_steps OrderTie.model_order_append) /\
+  OrderTie.tied_order (option_map OrderTie.storage_steps SrcOrder.src_order_clear) (OrderTie.storage_steps OrderTie.model_order_clear) /\
+  OrderTie.tied_order (option_map OrderTie.storage_steps SrcOrder.src_order_verify_and_apply_proof) (OrderTie.storage_steps OrderTie.model_order_apply) /\
+  OrderTie.tied_order (option_map OrderTie.storage_steps SrcOrder.src_order_make_read_only) (OrderTie.storage_steps OrderTie.model_order_read_only) /\
+  OrderTie.tied_order (option_map OrderTie.storage_steps SrcOrder.src_order_flush_bitfield_and_tree_and_oplog) (OrderTie.storage_steps OrderTie.model_order_flush).
+Proof. exact OrderTieStorage.source_storage_order_is_the_models. Qed.
 
 Theorem C10_failed_apply_recovers :
   forall cr : crypto,
@@ -383,3 +393,4 @@ Print Assumptions FaultReplicaEx.sc_fault_at_every_operation_of_replica_make_rea
 Print Assumptions FaultReplicaEx.toy_fault_in_creation.
 Print Assumptions FaultReplicaEx.toy_fault_in_repairing_open.
 Print Assumptions FaultReplicaEx.toy_failed_open_theorem_applies.
+Print Assumptions C10_source_step_order.
